@@ -117,6 +117,10 @@ func init() {
 			if os.Getenv("VERIF_DEBUG_ASSERT") != "" {
 				fmt.Printf("[assert] %s const=%v size=%d\n", id, c.IsConst(), smt.Size(c))
 			}
+			ex.Stat.Asserts++
+			if c.IsTrue() {
+				ex.Stat.AssertsConst++
+			}
 			if !c.IsTrue() {
 				ex.fail(st, "assert", id, ex.st.Not(c), site(in))
 			}
